@@ -193,7 +193,7 @@ Section Sem.
       let '(p, gs) := x in
       match n with
       | NEmpty => Some [x]
-      | NGoal => None                                        (* only the top level carries Goal *)
+      | NGoal => Some [x]                                    (* Goal ends a match: as a node it succeeds without moving (only the top level carries it, see ir_top) *)
       | NCat l => cat_results (fun c => ir_results f c fwd) l [x]
       | NAlt a b =>
           match ir_results f a fwd x, ir_results f b fwd x with Some u, Some v => Some (u ++ v) | _, _ => None end
